@@ -287,6 +287,23 @@ fn c08_one(rep: &mut Report, fam: &str, r: &RVal) {
 		o.object_limit = Some(json_syntax::print::Limit::Item(0));
 		let _ = guard(|| v.print_with(o).to_string());
 	}
+	// the same content in other storage (objects filled with the front mutators, strings and keys on the
+	// heap whatever their length, spare capacity): compact output is a function of the value
+	if rep.evaluations % 2 == 0 || want.len() < 64 {
+		let alt = crate::monitor::conv::from_rval_storage(r);
+		rep.count("renderings_compared", 2);
+		for (name, got) in [("compact_print().to_string() of an equal value held in other storage", guard(|| alt.compact_print().to_string())), ("to_string() of an equal value built with push", guard(|| from_rval_push(r).to_string()))] {
+			match got {
+				Err(p) => rep.violation("C08:panic", format!("[{}] {} panicked on {}: {}", fam, name, show(want.as_bytes()), p), json!({"sub": "compact", "value_compact": want})),
+				Ok(g) if g != want => rep.violation(
+					"C08:bytes-differ:other-storage",
+					format!("[{}] {} = `{}`, the reference serializer gives `{}`", fam, name, show(g.as_bytes()), show(want.as_bytes())),
+					json!({"sub": "compact", "value_compact": want}),
+				),
+				Ok(_) => (),
+			}
+		}
+	}
 	let forms: [(&str, Result<String, String>); 6] = [
 		("compact_print().to_string()", guard(|| v.compact_print().to_string())),
 		("to_string()", guard(|| v.to_string())),
@@ -667,6 +684,30 @@ impl PrintMon {
 					);
 				}
 			}
+			// a format specification on the placeholder is ignored or applied to the rendering as a whole
+			if self.rep.evaluations % 4 == 1 && want.len() <= 300 {
+				let ro = o.to_real();
+				macro_rules! spec {
+					($fmt:literal) => {{
+						let got = guard(|| format!($fmt, v.print_with(ro.clone())));
+						let whole = format!($fmt, want.as_str());
+						self.rep.count("layouts_compared_under_a_format_specification", 1);
+						match got {
+							Ok(g) if g == want || g == whole => (),
+							other => self.rep.violation(
+								"C13:layout-differs:format-specification",
+								format!("[{}] value {} under {} printed with `{}`: {:?}; expected the documented layout `{}` (specification ignored) or that text padded / truncated as a whole", fam, show(doc_of(r).as_bytes()), opts_json(o), $fmt, other.map(|g| show(g.as_bytes())), show(want.as_bytes())),
+								case_json("print", r, o),
+							),
+						}
+					}};
+				}
+				spec!("{:9}");
+				spec!("{:.2}");
+				spec!("{:>7.3}");
+				spec!("{:+}");
+				spec!("{:#}");
+			}
 			if text != want {
 				self.rep.violation(
 					"C13:layout-differs",
@@ -701,6 +742,49 @@ fn random_record(rng: &mut Rng, r: &RVal) -> POpts {
 		o.indent = pr::gen_indent(rng);
 	}
 	o
+}
+
+/// One case of the family "values through the serde number token": `Deserialize for Value` is handed
+/// the number token map with the string `tok` by a foreign deserializer; whatever value comes out
+/// must print as a valid document that parses back to it.
+fn number_token_case(rep: &mut Report, rd: &mut Reader, tok: &str, nested: bool) {
+	use serde::Deserialize;
+	rep.evaluations += 1;
+	rep.distinct_by_construction(1);
+	let got = guard(|| {
+		let inner = serde::de::value::MapDeserializer::<_, serde::de::value::Error>::new(std::iter::once(("$serde_json::private::Number", tok)));
+		if nested {
+			Value::deserialize(serde::de::value::SeqDeserializer::<_, serde::de::value::Error>::new(std::iter::once(inner)))
+		} else {
+			Value::deserialize(inner)
+		}
+	});
+	let v = match got {
+		Ok(Ok(v)) => v,
+		Ok(Err(_)) => {
+			rep.count("number_token_strings_refused", 1);
+			return;
+		}
+		Err(p) => {
+			rep.violation("C04:panic", format!("[values-through-the-serde-number-token] deserializing the token map with {:?} panicked: {}", tok, p), json!({"sub": "number-token", "token": tok, "nested": nested}));
+			return;
+		}
+	};
+	rep.count("number_token_strings_accepted", 1);
+	for (what, text) in [("compact", guard(|| v.compact_print().to_string())), ("pretty", guard(|| v.pretty_print().to_string()))] {
+		let ok = match &text {
+			Ok(t) => rd.read(t.as_bytes(), false).accepts(Opts::STRICT) && matches!(guard(|| Value::parse_str(t).map(|x| x.0)), Ok(Ok(back)) if back == v),
+			Err(_) => false,
+		};
+		if !ok {
+			rep.violation(
+				"C04:invalid-output:value-from-deserialize",
+				format!("[values-through-the-serde-number-token] the value {:?} obtained by deserializing the number token map with {:?} prints ({}) as {:?}, which is not a valid document that parses back to it", v, tok, what, text),
+				json!({"sub": "number-token", "token": tok, "nested": nested}),
+			);
+			return;
+		}
+	}
 }
 
 fn run_print(cfg: &Config, id: &'static str) -> i32 {
@@ -1064,6 +1148,32 @@ fn run_print(cfg: &Config, id: &'static str) -> i32 {
 	});
 	total.merge(rep);
 
+	// every Unicode scalar value, 64 consecutive ones per string, as a string and as a key
+	if c04 && !cfg.san {
+		let rep = parallel(cfg.threads, 64, |sh| {
+			let mut mon = PrintMon {
+				rep: Report::new(),
+				reader: Reader::new(),
+				c04: true,
+				c13: false,
+			};
+			let mut block = sh as u32;
+			while block * 64 < 0x110000 {
+				let s: String = (block * 64..block * 64 + 64).filter_map(char::from_u32).collect();
+				if !s.is_empty() {
+					let r = if block % 2 == 0 { RVal::Arr(vec![RVal::Str(s)]) } else { RVal::Obj(vec![(s, RVal::Null)]) };
+					let v = from_rval(&r);
+					mon.one("every-scalar-value-in-blocks-of-64", &r, &v, &(if block % 3 == 0 { POpts::pretty() } else { POpts::compact() }));
+					mon.rep.distinct_by_construction(1);
+				}
+				block += 64;
+			}
+			mon.rep.count("family:every-scalar-value-in-blocks-of-64", mon.rep.evaluations);
+			mon.rep
+		});
+		total.merge(rep);
+	}
+
 	// values obtained through `Deserialize for Value` from a foreign deserializer that hands over the
 	// number token map with an arbitrary string: whatever value comes out must print as valid JSON
 	if c04 {
@@ -1073,42 +1183,7 @@ fn run_print(cfg: &Config, id: &'static str) -> i32 {
 		let toks = ["0", "12", "-1.5e3", "1e", "01", "1.", "-", "+1", "0x1", "NaN", "Infinity", "1 ", " 1", "", "1,2", "1e+", ".5", "1.e2", "--1", "1e5", "-0", "1E-7", "true", "[1]", "\"1\"", "1\n", "9".repeat(40).as_str(), "1_000"].map(String::from);
 		for tok in toks.iter() {
 			for nested in [false, true] {
-				rep.evaluations += 1;
-				rep.distinct_by_construction(1);
-				let got = guard(|| {
-					let inner = serde::de::value::MapDeserializer::<_, serde::de::value::Error>::new(std::iter::once(("$serde_json::private::Number", tok.as_str())));
-					if nested {
-						Value::deserialize(serde::de::value::SeqDeserializer::<_, serde::de::value::Error>::new(std::iter::once(inner)))
-					} else {
-						Value::deserialize(inner)
-					}
-				});
-				let v = match got {
-					Ok(Ok(v)) => v,
-					Ok(Err(_)) => {
-						rep.count("number_token_strings_refused", 1);
-						continue;
-					}
-					Err(p) => {
-						rep.violation("C04:panic", format!("[values-through-the-serde-number-token] deserializing the token map with {:?} panicked: {}", tok, p), json!({"sub": "number-token", "token": tok, "nested": nested}));
-						continue;
-					}
-				};
-				rep.count("number_token_strings_accepted", 1);
-				for (what, text) in [("compact", guard(|| v.compact_print().to_string())), ("pretty", guard(|| v.pretty_print().to_string()))] {
-					let ok = match &text {
-						Ok(t) => rd.read(t.as_bytes(), false).accepts(Opts::STRICT) && matches!(guard(|| Value::parse_str(t).map(|x| x.0)), Ok(Ok(back)) if back == v),
-						Err(_) => false,
-					};
-					if !ok {
-						rep.violation(
-							"C04:invalid-output:value-from-deserialize",
-							format!("[values-through-the-serde-number-token] the value {:?} obtained by deserializing the number token map with {:?} prints ({}) as {:?}, which is not a valid document that parses back to it", v, tok, what, text),
-							json!({"sub": "number-token", "token": tok, "nested": nested}),
-						);
-						break;
-					}
-				}
+				number_token_case(&mut rep, &mut rd, tok, nested);
 			}
 		}
 		rep.count("family:values-through-the-serde-number-token", rep.evaluations);
@@ -1187,6 +1262,11 @@ pub fn selftest() -> Result<(), String> {
 }
 
 pub fn replay_case(id: &str, case: &serde_json::Value) -> Option<Vec<String>> {
+	if case.get("sub")?.as_str()? == "number-token" {
+		let mut rep = Report::new();
+		number_token_case(&mut rep, &mut Reader::new(), case.get("token")?.as_str()?, case.get("nested")?.as_bool()?);
+		return Some(rep.violations.iter().map(|v| format!("[{}] {}", v.signature, v.what)).collect());
+	}
 	let doc = case.get("value_compact")?.as_str()?;
 	let mut rd = Reader::new();
 	let r = rd.read(doc.as_bytes(), true).root?;
